@@ -96,6 +96,68 @@ def run(rep, tier, seed, replay):
                 for t in known:
                     rep.known_hits[t] += 1
 
+    # ---- combinators: any([e]) and any([a, b]) report a depth too
+    if replay is None or "any" in replay["input"]:
+        combos = lib.combinator_pairs(P, exprs, built, seed, 900 if tier == "quick" else 9000)
+        if replay is not None:
+            d = lib.parse_impl_build(h.ask(["A %d %s" % (len(replay["input"]["any"]), " ".join(hexs(e) for e in replay["input"]["any"]))])[0])
+            combos = [(replay["input"]["any"], d)] if d["ok"] else []
+        rep.evaluations += len(combos)
+        mdep = lib.any_model(m, "DGA", [ms for ms, _ in combos])
+        mpat = lib.any_model(m, "A", [ms for ms, _ in combos])
+        todo2 = []
+        for (ms, d), dv, pl in zip(combos, mdep, mpat):
+            rep.traces += 1
+            iv = d.get("depth", "?")
+            rep.stats["combinator-depth:" + iv.split("_")[0].split(":")[0]] += 1
+            mp = unhex(pl.split(" | ")[1]) if pl.startswith("ok ") and " | " in pl else None
+            if not (iv == dv.replace(" ", "_") or (iv.startswith("panic") and dv == "panic")) or (mp != d["pattern"] and dv != "panic"):
+                rep.stats["correspondence-broken"] += 1
+                rep.violation("correspondence", "combinator: depth() and compiled pattern", {"any": ms}, impl="%s %s" % (iv, d["pattern"][:160]), model="%s %s" % (dv, (mp or "")[:160]))
+                continue
+            if iv.startswith("panic") or d.get("root") not in ("always", "never"):
+                continue
+            todo2.append((ms, d))
+            rep.distinct.add("any:" + "|".join(ms))
+        res2 = h.ask(["N %s %s" % (hexs(d["pattern"]), "1" if d["root"] == "always" else "0") for ms, d in todo2])
+        bad2 = []
+        for (ms, d), line in zip(todo2, res2):
+            if not line.startswith("counts"):
+                rep.stats["dfa-" + line.split()[0]] += 1
+                continue
+            counts = [int(x) for x in line[len("counts "):].strip("[]").split(",") if x != ""]
+            outside = [c for c in counts if not contains(d["depth"], c)]
+            if not outside:
+                rep.stats["combinator:depth-contains-all-counts"] += 1
+            else:
+                bad2.append((ms, d, outside[0]))
+        frag2 = lib.any_model(m, "F10A", [ms for ms, _d, _c in bad2])
+        for (ms, d, c), f in zip(bad2, frag2):
+            rep.stats["combinator:depth-misses-a-match"] += 1
+            words = h.ask(["WD %s 400" % hexs(d["pattern"])])[0]
+            rooted = d["root"] == "always"
+            wit = None
+            for w in words.split()[1:]:
+                w = unhex(w)
+                canon = "//" not in w and (w == "/" or not w.endswith("/"))
+                comps = len([x for x in w.split("/") if x])
+                if canon and w.startswith("/") == rooted and (comps == c or (c == CAP and comps >= CAP)):
+                    wit = w
+                    break
+            inp = {"any": ms, "path": wit, "components": c}
+            confirmed = wit is not None and h.ask(["MA %s %d %s" % (hexs(wit), len(ms), " ".join(hexs(e) for e in ms))])[0].startswith("match")
+            kind = "oracle" if confirmed else "correspondence"
+            if f == "in":
+                rep.violation(kind, "a combinator inside the proved fragment matches a path whose component count lies outside depth()", inp, impl=d["depth"], fragment=f)
+            else:
+                tags = f[4:].split(",")
+                known = [t for t in tags if t in finding_ids]
+                if not known:
+                    rep.violation(kind, "combinator depth deviation at a site no listed finding names: %s" % f, inp, impl=d["depth"], fragment=f)
+                else:
+                    for t in known:
+                        rep.known_hits[t] += 1
+
     def ask(wit):
         b = lib.parse_impl_build(h.ask(["B " + hexs(wit["expr"])])[0])
         a = h.ask(["M %s %s" % (hexs(wit["expr"]), hexs(wit["path"]))])[0].startswith("match")
